@@ -332,6 +332,8 @@ def expected(T, edges, call):
         out = []
         for a in acc:
             l = math.sqrt(sum(x * x for x in a))
+            if l < 1e-6:
+                return None   # a vanishing weighted sum has no direction: the vertex normal is not defined
             out.append([x / l for x in a])
         return out
     if nm == "cell_volume":
@@ -425,6 +427,8 @@ def oracle_case(case, out):
         exp = expected(T, edges, call)
         if "err" in res:
             if isinstance(exp, tuple) and exp[0] == "raises":
+                continue
+            if exp is None and call[0] == "vnormals":
                 continue
             bad.append((k, "%s raised %s" % (call[0], res["err"])))
             continue
